@@ -29,22 +29,31 @@ static void flag_persistence(const int w[N][N], Diagram& D) {
   int ord[NS], n = 0; for (int m = 1; m < NS; m++) if (in[m]) ord[n++] = m;
   for (int a = 0; a < n; a++) for (int b = 0; b + 1 < n - a; b++) { int x = ord[b], y = ord[b + 1]; bool gt = val[x] > val[y] || (val[x] == val[y] && (pcnt(x) > pcnt(y) || (pcnt(x) == pcnt(y) && x > y))); if (gt) { ord[b] = y; ord[b + 1] = x; } }
   int pos[NS]; for (int i = 0; i < n; i++) pos[ord[i]] = i;
-  static unsigned col[NS]; int low[NS]; bool paired[NS]; for (int j = 0; j < n; j++) paired[j] = false;
-  for (int j = 0; j < n; j++) { col[j] = 0; int m = ord[j]; if (pcnt(m) > 1) for (int v = 0; v < N; v++) if (m >> v & 1) col[j] |= 1u << pos[m & ~(1 << v)];
-    low[j] = -1; while (col[j]) { int l = 31 - __builtin_clz(col[j]); int k = -1; for (int q = 0; q < j; q++) if (col[q] && low[q] == l) k = q; if (k < 0) { low[j] = l; break; } col[j] ^= col[k]; }
+  static unsigned long long col[NS]; int low[NS]; bool paired[NS]; for (int j = 0; j < n; j++) paired[j] = false;
+  for (int j = 0; j < n; j++) { col[j] = 0; int m = ord[j]; if (pcnt(m) > 1) for (int v = 0; v < N; v++) if (m >> v & 1) col[j] |= 1ull << pos[m & ~(1 << v)];
+    low[j] = -1; while (col[j]) { int l = 63 - __builtin_clzll(col[j]); int k = -1; for (int q = 0; q < j; q++) if (col[q] && low[q] == l) k = q; if (k < 0) { low[j] = l; break; } col[j] ^= col[k]; }
     if (low[j] >= 0) { paired[low[j]] = true; paired[j] = true; int b = val[ord[low[j]]], e = val[ord[j]]; if (b < e) D.cnt[pcnt(ord[low[j]]) - 1][b][e]++; } }
   for (int j = 0; j < n; j++) if (!paired[j]) D.cnt[pcnt(ord[j]) - 1][val[ord[j]]][VMAXV]++;
 }
 extern "C" void harness() {
   int w[N][N]; std::vector<std::tuple<int, int, W> > e;
+#if defined(VP_GRAPH) && VP_GRAPH == 3
+  bool miss[N][N]; for (int i = 0; i < N; i++) for (int j = 0; j < N; j++) miss[i][j] = false;
+  { int prev = -1; for (int q = 0; q < VP_MISSING; q++) { int ei = vp_fork_int(vp_int("missing", 0, N * (N - 1) / 2 - 1)); vp_assume(ei > prev); prev = ei; int c = 0; for (int i = 0; i < N; i++) for (int j = i + 1; j < N; j++) { if (c == ei) miss[i][j] = miss[j][i] = true; c++; } } }
+#endif
   for (int i = 0; i < N; i++) for (int j = i + 1; j < N; j++) {
 #ifdef VP_GRIDW
     // weights as finite-grid doubles (guarded constants): the collapser only compares and copies them
-#ifdef VP_GRAPH   /* fixed edge set: 1 = octahedron (K6 minus a perfect matching), 2 = complete graph; only the weights vary */
+#ifdef VP_GRAPH   /* 1 = octahedron (K6 minus a perfect matching), 2 = complete graph: only the weights vary; 3 = complete graph minus VP_MISSING solver-chosen edges */
+#if VP_GRAPH == 3
+    int present = !miss[i][j];
+#else
     int present = (VP_GRAPH == 1) ? !((i ^ j) == 1 && (i >> 1) == (j >> 1)) : 1;
+#endif
 #else
     int present = vp_fork_int(vp_int("has", 0, 1));
-#endif W xw = (W)vp_double_grid("w", 1.0, 1.0, VP_WMAX); int x = 0; if (present) { for (int q = 1; q <= VP_WMAX; q++) if (xw == (W)q) x = q; }
+#endif
+    W xw = (W)vp_double_grid("w", 1.0, 1.0, VP_WMAX); int x = 0; if (present) { for (int q = 1; q <= VP_WMAX; q++) if (xw == (W)q) x = q; }
     w[i][j] = w[j][i] = present ? x : -1; if (present) e.emplace_back(label[i], label[j], xw);
 #else
     int x = vp_int("w", 0, VP_WMAX); w[i][j] = w[j][i] = x == 0 ? -1 : x; if (x) e.emplace_back(label[i], label[j], (W)x);
